@@ -7,7 +7,7 @@ from __future__ import annotations
 import ast
 
 from ..algebra import Converter, Expr, NotAlgebraic
-from ..astutil import U, view, arg_or_kw, kwarg, names_in, stmt_index, compare_parts, MUTATORS
+from ..astutil import U, view, arg_or_kw, kwarg, names_in, stmt_index, compare_parts, MUTATORS, flat_tests, value_cases, truth_of, symbolic_paths
 from ..cfg import walk_no_nested
 from ..model import dotted
 
@@ -17,130 +17,154 @@ DROP = "droplets.droplets"
 
 
 # ----------------------------------------------------------------------------- C10
+def _self_mutations(fi, allow=("pop",)):
+    """statements that modify ``self`` (the list) other than by the allowed methods"""
+    others = []
+    for s in ast.walk(fi.node):
+        if isinstance(s, ast.Call) and isinstance(s.func, ast.Attribute) and U(s.func.value) == "self" and s.func.attr in (MUTATORS - set(allow)) | {"sort", "reverse", "__delitem__", "__setitem__"}:
+            others.append(s)
+        tg = s.targets if isinstance(s, ast.Assign) else ([s.target] if isinstance(s, ast.AugAssign) else (s.targets if isinstance(s, ast.Delete) else []))
+        for t_ in tg:
+            if isinstance(t_, ast.Subscript) and U(t_.value) == "self":
+                others.append(s)
+    return others
+
+
 def check_remove_overlapping(ctx):
     m = ctx.model
     fi = m.func(f"{EM}.Emulsion.remove_overlapping")
     fv = view(m, fi)
     si = stmt_index(fv)
     site = fi.qualname
-    # distance matrix source
     src = [c for c in fv.calls() if isinstance(c.func, ast.Attribute) and c.func.attr == "get_pairwise_distances" and U(c.func.value) == "self"]
-    D = None
-    if len(src) == 1:
-        st = si.statement(src[0])
-        D = U(st.targets[0]) if isinstance(st, ast.Assign) else None
-        sr = arg_or_kw(src[0], 0, "subtract_radius")
-        g = arg_or_kw(src[0], 1, "grid")
-        ok = isinstance(sr, ast.Constant) and sr.value is True and g is not None and U(g) == "grid"
-        ctx.decide(ok, "METRIC", site + ":matrix", (fi, src[0]), "surface distances in the supplied grid's metric",
-                   f"`{U(src[0])}`: overlap removal must use surface-to-surface distances (subtract_radius=True) measured with grid=grid")
-    else:
+    if len(src) != 1:
         ctx.violate("METRIC", site + ":matrix", fi, "distances are not taken from self.get_pairwise_distances(subtract_radius=True, grid=grid)")
         return
-    # diagonal neutralised before the loop
+    st = si.statement(src[0])
+    D = U(st.targets[0]) if isinstance(st, ast.Assign) else None
+    sr = arg_or_kw(src[0], 0, "subtract_radius")
+    g = arg_or_kw(src[0], 1, "grid")
+    ok = isinstance(sr, ast.Constant) and sr.value is True and g is not None and U(g) == "grid"
+    ctx.decide(ok, "METRIC", site + ":matrix", (fi, src[0]), "surface distances in the supplied grid's metric",
+               f"`{U(src[0])}`: overlap removal must use surface-to-surface distances (subtract_radius=True) measured with grid=grid")
+    if D is None:
+        ctx.undecided("GUARDSHAPE", site + ":loop", fi, "distance matrix not bound to a name")
+        return
     fd = [c for c in fv.calls() if (fv.callee(c) or "").endswith("fill_diagonal")]
     loops = [s for s in fv.statements() if isinstance(s, ast.While)]
     if len(loops) != 1:
         ctx.undecided("GUARDSHAPE", site + ":loop", fi, "no single while loop")
         return
     wl = loops[0]
-    okd = len(fd) == 1 and U(fd[0].args[0]) == D and U(fd[0].args[1]) in ("np.inf", "math.inf") and fv.dominates(fd[0], wl)
+    okd = len(fd) == 1 and U(fd[0].args[0]) == D and U(fd[0].args[1]) in ("np.inf", "math.inf", "float('inf')") and fv.dominates(fd[0], wl)
     ctx.decide(okd, "GUARDSHAPE", site + ":diagonal", (fi, fd[0]) if fd else fi, "self-distances are set to ∞ before searching the closest pair",
                "the diagonal of the distance matrix is not set to ∞ before the loop: a droplet would be its own closest 'pair'")
-    # loop condition and exit
     okw = U(wl.test) in (f"len({D}) > 1", f"len({D}) >= 2", f"{D}.shape[0] > 1", "len(self) > 1", "len(self) >= 2")
     um = [c for c in fv.calls() if (fv.callee(c) or "").endswith("unravel_index") and any(x is c for x in ast.walk(wl))]
     pair = None
     if um:
         c = um[0]
-        a0 = c.args[0]
-        glob = isinstance(a0, ast.Call) and (fv.callee(a0) or "").endswith("argmin") and len(a0.args) == 1 and U(a0.args[0]) == D and not a0.keywords
+        a0 = fv.expand(c.args[0], c, stop=(D,), allow_mutated=True)
+        glob = isinstance(a0, ast.Call) and (((fv.callee(a0) or "").endswith("argmin") and len(a0.args) == 1 and U(a0.args[0]) == D and not a0.keywords)
+                                             or (isinstance(a0.func, ast.Attribute) and a0.func.attr == "argmin" and U(a0.func.value) == D and not a0.args and not a0.keywords))
         s_um = si.statement(c)
         if isinstance(s_um, ast.Assign) and isinstance(s_um.targets[0], ast.Tuple) and len(s_um.targets[0].elts) == 2:
             pair = tuple(U(e) for e in s_um.targets[0].elts)
-        okw = okw and glob and U(c.args[1]) == f"{D}.shape"
+        okw = okw and glob and len(c.args) > 1 and U(c.args[1]) == f"{D}.shape"
     ctx.decide(bool(okw and pair), "GUARDSHAPE", site + ":loop", (fi, wl), "while more than one droplet is left: take the globally closest pair",
                "the removal loop does not repeatedly take the globally closest remaining pair while more than one droplet is left")
     if not pair:
         return
     x, y = pair
-    # closeness test
-    tests = [s for s in ast.walk(wl) if isinstance(s, ast.If) and D in names_in(s.test)]
-    okt = False
-    if tests:
-        t = tests[0]
-        cp = compare_parts(t.test)
-        okt = cp is not None and U(cp[0]) in (f"{D}[{x}, {y}]", f"{D}[{y}, {x}]") and isinstance(cp[1], ast.Lt) and U(cp[2]) == "min_distance"
-        okt = okt and len(t.orelse) == 1 and isinstance(t.orelse[0], ast.Break)
-    ctx.decide(okt, "GUARDSHAPE", site + ":closeness", (fi, tests[0]) if tests else (fi, wl),
-               "a pair is resolved iff its surface distance is strictly below min_distance; otherwise the loop ends",
-               "the pair test is not `dists[x, y] < min_distance` with `break` otherwise: pairs exactly at the minimal distance are removed, or the loop ends while closer pairs remain")
-    # tie-break and paired removal
-    pops = [c for c in fv.calls() if isinstance(c.func, ast.Attribute) and c.func.attr == "pop" and U(c.func.value) == "self"]
-    others = []
-    for s in ast.walk(fi.node):
-        if isinstance(s, ast.Call) and isinstance(s.func, ast.Attribute) and U(s.func.value) == "self" and s.func.attr in (MUTATORS - {"pop"}) | {"sort", "reverse", "__delitem__", "__setitem__"}:
-            others.append(s)
-        tg = s.targets if isinstance(s, ast.Assign) else ([s.target] if isinstance(s, ast.AugAssign) else ([s.targets[0]] if isinstance(s, ast.Delete) else []))
-        for t_ in tg:
-            if isinstance(t_, ast.Subscript) and U(t_.value) == "self":
-                others.append(s)
-    ctx.decide(len(pops) == 2 and not others, "EFFECT", site + ":pop-only", (fi, others[0]) if others else fi,
+    pops = [c for c in fv.calls() if isinstance(c.func, ast.Attribute) and c.func.attr == "pop" and U(c.func.value) == "self" and any(z is c for z in ast.walk(wl))]
+    others = _self_mutations(fi)
+    ctx.decide(len(pops) >= 1 and not others, "EFFECT", site + ":pop-only", (fi, others[0]) if others else fi,
                "the emulsion is modified only by pop(index): survivors are the original objects in their original order",
-               f"the emulsion is modified other than by pop (`{U(others[0])[:60] if others else f'{len(pops)} pops'}`): survivors may be copies or reordered")
-    rad_if = [s for s in ast.walk(wl) if isinstance(s, ast.If) and "radius" in U(s.test)]
-    if len(rad_if) != 1 or len(pops) != 2:
-        ctx.undecided("GUARDSHAPE", site + ":tie-break", fi, "radius comparison not recognised")
+               f"the emulsion is modified other than by pop (`{U(others[0])[:60] if others else 'no pop at all'}`): survivors may be copies or reordered")
+    if not pops:
         return
-    rif = rad_if[0]
-    cp = compare_parts(rif.test)
-    body_pop = [c for c in pops if any(z is c for z in ast.walk(ast.Module(body=rif.body, type_ignores=[])))]
-    else_pop = [c for c in pops if any(z is c for z in ast.walk(ast.Module(body=rif.orelse, type_ignores=[])))]
-    ok = False
-    if cp and len(body_pop) == 1 and len(else_pop) == 1:
-        l, op, r = U(cp[0]), cp[1], U(cp[2])
-        rx, ry = f"self[{x}].radius", f"self[{y}].radius"
-        pb, pe = U(body_pop[0].args[0]), U(else_pop[0].args[0])
-        # in the body the removed droplet must be the strictly smaller one; in the else branch the other one
-        if isinstance(op, ast.Gt):
-            bigger, smaller = l, r
-        elif isinstance(op, ast.Lt):
-            bigger, smaller = r, l
-        else:
-            bigger = smaller = None
-        if bigger is not None and {bigger, smaller} == {rx, ry}:
-            small_idx = x if smaller == rx else y
-            big_idx = y if small_idx == x else x
-            ok = pb == small_idx and pe == big_idx
-    ctx.decide(ok, "GUARDSHAPE", site + ":tie-break", (fi, rif),
-               "under a strict radius comparison the strictly smaller droplet is removed, otherwise the other one: the removed droplet is never strictly larger than its partner",
-               f"`if {U(rif.test)}` removes index {U(body_pop[0].args[0]) if body_pop else '?'} and otherwise {U(else_pop[0].args[0]) if else_pop else '?'}: a strictly larger droplet can be removed in favour of a smaller one")
-    # PAIR: pop(k) goes with deleting row k and column k
+    close_txt = (f"{D}[{x}, {y}] < min_distance", f"{D}[{y}, {x}] < min_distance")
+    # ---- closeness: a droplet is removed only when D[x, y] < min_distance; the loop ends otherwise
+    okt = True
     for c in pops:
-        k = U(c.args[0])
-        blk = si.parent.get(id(si.statement(c)))
-        sib = getattr(blk[0], blk[1]) if blk and blk[0] is not None else []
-        dels = [s for s in sib if isinstance(s, ast.Assign) and U(s.targets[0]) == D and "delete" in U(s.value)]
-        ok = False
-        detail = "no matrix update next to the pop"
-        if len(dels) == 1:
-            v = dels[0].value
-            # np.delete(np.delete(D, k, 0), k, 1) in either axis order
-            def parse(call):
-                if isinstance(call, ast.Call) and (fv.callee(call) or "").endswith("numpy.delete") and len(call.args) >= 3:
-                    return call.args[0], U(call.args[1]), U(call.args[2])
-                if isinstance(call, ast.Call) and (fv.callee(call) or "").endswith("numpy.delete") and len(call.args) == 2 and kwarg(call, "axis") is not None:
-                    return call.args[0], U(call.args[1]), U(kwarg(call, "axis"))
-                return None
+        eg = []
+        for t, p in si.effective_guards(c):
+            if any(z is t for z in ast.walk(wl)):
+                eg += [(U(a), q) for a, q in flat_tests(t, p)]
+        if not any(t in close_txt and q for t, q in eg):
+            okt = False
+    brk = [s for s in ast.walk(wl) if isinstance(s, ast.Break)]
+    okb = False
+    for b in brk:
+        eg = []
+        for t, p in si.effective_guards(b):
+            if any(z is t for z in ast.walk(wl)):
+                eg += [(U(a), q) for a, q in flat_tests(t, p)]
+        if any(t in close_txt and not q for t, q in eg):
+            okb = True
+    ctx.decide(okt and okb, "GUARDSHAPE", site + ":closeness", (fi, pops[0]),
+               "a pair is resolved iff its surface distance is strictly below min_distance; otherwise the loop ends",
+               f"droplets are not removed exactly when `{close_txt[0]}` (strict) with `break` otherwise: pairs exactly at the minimal distance are removed, or the loop ends while closer pairs remain")
+    # ---- tie-break and paired removal, path-sensitively
+    rx, ry = f"self[{x}].radius", f"self[{y}].radius"
+    cases = []  # (x_strictly_bigger: bool|None, removed index text, pop call)
+    for c in pops:
+        for dec, val in value_cases(fv, c, c.args[0], stop=(x, y, D)):
+            pol = None
+            for txt, bigger_is_x in ((f"{rx} > {ry}", True), (f"{ry} < {rx}", True), (f"{ry} > {rx}", False), (f"{rx} < {ry}", False)):
+                tv = truth_of(dec, txt)
+                if tv is not None:
+                    pol = (tv, bigger_is_x)
+            cases.append((pol, U(val), c))
+    ok, detail = True, []
+    decided_cases = 0
+    for pol, removed, c in cases:
+        if pol is None:
+            continue
+        decided_cases += 1
+        tv, bigger_is_x = pol
+        strictly_bigger = (x if bigger_is_x else y) if tv else None
+        detail.append(f"{'x' if bigger_is_x else 'y'} strictly larger={tv} → pop({removed})")
+        if strictly_bigger is not None and removed == strictly_bigger:
+            ok = False
+        if removed not in (x, y):
+            ok = False
+    # both outcomes of the radius test must remove different droplets (otherwise ties/any case removes the larger one)
+    outcomes = {(pol[0], removed) for pol, removed, c in cases if pol is not None}
+    if decided_cases == 0:
+        ctx.undecided("GUARDSHAPE", site + ":tie-break", (fi, pops[0]), "no comparison of the two radii decides which droplet is removed")
+    else:
+        two_sided = len({r for _, r in outcomes}) == 2
+        ctx.decide(ok and two_sided, "GUARDSHAPE", site + ":tie-break", (fi, pops[0]),
+                   "when one droplet is strictly larger, the other one is removed: the removed droplet is never strictly larger than its partner",
+                   f"removal cases {sorted(set(detail))}: a strictly larger droplet can be removed in favour of a smaller one")
+    # ---- PAIR: the index popped is the row and the column deleted from the matrix, on the same path
+    dels = [s for s in ast.walk(wl) if isinstance(s, ast.Assign) and U(s.targets[0]) == D and "delete" in U(s.value)]
 
+    def parse(call):
+        if isinstance(call, ast.Call) and (fv.callee(call) or "").endswith("numpy.delete"):
+            if len(call.args) >= 3:
+                return call.args[0], call.args[1], U(call.args[2])
+            if len(call.args) == 2 and kwarg(call, "axis") is not None:
+                return call.args[0], call.args[1], U(kwarg(call, "axis"))
+        return None
+
+    for k, c in enumerate(pops):
+        blk = si.parent.get(id(si.statement(c)))
+        sib = getattr(blk[0], blk[1]) if blk and blk[0] is not None else fi.node.body
+        local = [s for s in sib if s in dels] or dels
+        idx = U(c.args[0])
+        ok, detail = False, "no matrix update next to the pop"
+        if len(local) >= 1:
+            v = local[0].value
             outer_ = parse(v)
             inner_ = parse(outer_[0]) if outer_ else None
             if outer_ and inner_ and U(inner_[0]) == D:
-                axes = {outer_[2]: outer_[1], inner_[2]: inner_[1]}
-                ok = axes == {"0": k, "1": k}
+                axes = {outer_[2]: U(outer_[1]), inner_[2]: U(inner_[1])}
+                ok = axes == {"0": idx, "1": idx}
                 detail = f"rows/columns deleted: axis→index {axes}"
-        ctx.decide(ok, "PAIR", f"{site}:pop({k})", (fi, c), f"pop({k}) is paired with deleting row {k} and column {k} of the distance matrix",
-                   f"pop({k}) is not paired with deleting row {k} AND column {k} of the cached distance matrix ({detail}): rows and columns then refer to different droplets and later decisions use wrong distances")
+        ctx.decide(ok, "PAIR", f"{site}:pop#{k}", (fi, c), f"pop({idx}) is paired with deleting row {idx} and column {idx} of the distance matrix",
+                   f"pop({idx}) is not paired with deleting row {idx} AND column {idx} of the cached distance matrix ({detail}): rows and columns then refer to different droplets and later decisions use wrong distances")
 
 
 def check_pairwise(ctx):
@@ -149,57 +173,86 @@ def check_pairwise(ctx):
     fv = view(m, fi)
     si = stmt_index(fv)
     site = fi.qualname
-    # metric selection: exactly on `grid is None`
+    # ---- metric selection: exactly on `grid is None`
     tests = [s for s in fv.statements() if isinstance(s, ast.If) and "grid" in names_in(s.test)]
-    okm = False
     if len(tests) == 1:
         t = tests[0]
         cp = compare_parts(t.test)
         pure = cp is not None and U(cp[0]) == "grid" and isinstance(cp[1], (ast.Is, ast.IsNot)) and isinstance(cp[2], ast.Constant) and cp[2].value is None
         none_body, grid_body = (t.body, t.orelse) if pure and isinstance(cp[1], ast.Is) else (t.orelse, t.body)
-        eu = [g for g in m.all_functions() if g.parent is fi and any(g.node is s for s in none_body)]
+        eu = [g_ for g_ in m.all_functions() if g_.parent is fi and any(g_.node is s for s in none_body)]
         ok_eu = False
+        fname = None
         if len(eu) == 1:
             rets = [s for s in ast.walk(eu[0].node) if isinstance(s, ast.Return)]
-            p = eu[0].params
-            ok_eu = len(rets) == 1 and len(p) == 2 and U(rets[0].value) in (f"np.linalg.norm({p[0]} - {p[1]})", f"np.linalg.norm({p[1]} - {p[0]})") and eu[0].name == "get_distance"
-        ok_gr = any(isinstance(s, ast.Assign) and U(s.targets[0]) == "get_distance" and U(s.value) in ("functools.partial(grid.distance, coords='cartesian')", "partial(grid.distance, coords='cartesian')") for s in grid_body)
-        okm = pure and ok_eu and ok_gr
-        ctx.decide(okm, "METRIC", site, (fi, t),
-                   "Euclidean distance exactly when no grid is given; grid.distance(coords='cartesian') for every supplied grid",
-                   f"metric selection `if {U(t.test)}`: the periodic metric grid.distance(…, coords='cartesian') must be used whenever a grid is supplied (any mix of periodic axes), the Euclidean norm only for grid None")
+            p_ = eu[0].params
+            fname = eu[0].name
+            ok_eu = len(rets) == 1 and len(p_) == 2 and U(rets[0].value) in (f"np.linalg.norm({p_[0]} - {p_[1]})", f"np.linalg.norm({p_[1]} - {p_[0]})")
+        ok_gr = any(isinstance(s, ast.Assign) and U(s.targets[0]) == fname and U(s.value) in ("functools.partial(grid.distance, coords='cartesian')", "partial(grid.distance, coords='cartesian')") for s in grid_body)
+        if not pure:
+            ctx.violate("METRIC", site, (fi, t),
+                        f"metric selection `if {U(t.test)}`: the periodic metric grid.distance(…, coords='cartesian') must be used whenever a grid is supplied (any mix of periodic axes), the Euclidean norm only for grid None")
+        else:
+            ctx.decide(ok_eu and ok_gr, "METRIC", site, (fi, t),
+                       "Euclidean distance exactly when no grid is given; grid.distance(coords='cartesian') for every supplied grid",
+                       "the two metrics are not np.linalg.norm(p1 - p2) (no grid) and functools.partial(grid.distance, coords='cartesian') (grid given)")
     else:
         ctx.violate("METRIC", site, fi, f"{len(tests)} tests on the grid: expected the single selection `grid is None` → Euclidean, else grid.distance")
-    # symmetric zero-diagonal construction
-    init = [s for s in fv.statements() if isinstance(s, ast.Assign) and U(s.targets[0]) == "dists"]
-    ok0 = len(init) == 1 and U(init[0].value) in ("np.zeros((num, num))", "np.zeros([num, num])")
-    sym = [s for s in fv.statements() if isinstance(s, ast.Assign) and len(s.targets) == 2 and {U(t) for t in s.targets} == {"dists[i, j]", "dists[j, i]"}]
-    loops = [s for s in fv.statements() if isinstance(s, ast.For)]
-    okl = len(loops) == 2 and U(loops[0].iter) == "range(num)" and U(loops[1].iter) in (f"range({U(loops[0].target)} + 1, num)",) and U(loops[0].target) == "i" and U(loops[1].target) == "j"
-    num = [s for s in fv.statements() if isinstance(s, ast.Assign) and U(s.targets[0]) == "num"]
-    okn = len(num) == 1 and U(num[0].value) == "len(self)"
-    ctx.decide(ok0 and len(sym) == 1 and okl and okn, "SYMM", site, (fi, sym[0]) if sym else fi,
+        fname = None
+    # ---- symmetric zero-diagonal construction
+    rets = [n.stmt for n in fv.return_nodes() if n.stmt.value is not None]
+    D = U(rets[-1].value) if rets and isinstance(rets[-1].value, ast.Name) else None
+    if D is None:
+        ctx.undecided("SYMM", site, fi, "returned matrix is not a local name")
+        return
+    init = [s for s in fv.statements() if isinstance(s, (ast.Assign, ast.AnnAssign)) and U(s.targets[0] if isinstance(s, ast.Assign) else s.target) == D]
+    ok0 = len(init) == 1 and U(fv.expand(init[0].value, init[0])).replace(" ", "") in ("np.zeros((len(self),len(self)))", "np.zeros([len(self),len(self)])")
+    stores = [s for s in fv.statements() if isinstance(s, ast.Assign) and isinstance(s.targets[0], ast.Subscript) and U(s.targets[0].value) == D and isinstance(s.targets[0].slice, ast.Tuple) and len(s.targets[0].slice.elts) == 2]
+    loops = [s for s in fv.statements() if isinstance(s, ast.For) and any(x is st for st in stores for x in ast.walk(s))]
+    okl = False
+    iv = jv = None
+    if len(loops) == 2:
+        outer_l, inner_l = (loops[0], loops[1]) if any(x is loops[1] for x in ast.walk(loops[0])) else (loops[1], loops[0])
+        iv, jv = U(outer_l.target), U(inner_l.target)
+        okl = U(fv.expand(outer_l.iter, outer_l)) == "range(len(self))" and U(fv.expand(inner_l.iter, inner_l)).replace(" ", "") in (f"range({iv}+1,len(self))", f"range(1+{iv},len(self))")
+    idx = {tuple(U(e) for e in s.targets[0].slice.elts) for s in stores}
+    vals = {U(fv.expand(s.value, s, allow_mutated=True, stop=(iv or "", jv or ""))) for s in stores}
+    oksym = iv is not None and idx == {(iv, jv), (jv, iv)} and len(vals) == 1
+    ctx.decide(ok0 and okl and oksym, "SYMM", site, (fi, stores[0]) if stores else fi,
                "matrix starts as zeros and every pair i<j is written to both [i,j] and [j,i]: symmetric with zero diagonal",
-               "the matrix is not (zeros(num,num); for i<j: dists[i,j] = dists[j,i] = d): symmetry or the zero diagonal is lost")
-    # the distance itself: positions of self[i], self[j]; minus both radii
-    if sym:
-        s = sym[0]
-        dn = U(s.value)
-        dd = [x for x in fv.statements() if isinstance(x, ast.Assign) and U(x.targets[0]) == dn]
-        okp = len(dd) == 1 and isinstance(dd[0].value, ast.Call) and U(dd[0].value.func) == "get_distance"
-        if okp:
-            args = [U(fv.expand(a, dd[0])) for a in dd[0].value.args]
-            okp = set(args) == {"self[i].position", "self[j].position"}
-        sub = [x for x in fv.statements() if isinstance(x, ast.AugAssign) and U(x.target) == dn]
-        oks = False
-        if len(sub) == 1 and isinstance(sub[0].op, ast.Sub):
-            g = [(U(t), p) for t, p in si.guards(sub[0])]
+               "the matrix is not (zeros(n,n); for i<j: D[i,j] = D[j,i] = d): symmetry or the zero diagonal is lost")
+    # ---- the distance itself
+    if stores and iv is not None:
+        s0 = stores[0]
+        okp = oks = False
+        if isinstance(s0.value, ast.Name):
+            dn = s0.value.id
+            cases = value_cases(fv, s0, s0.value, stop=(iv, jv, fname or "get_distance"))
+            seen = set()
+            for dec, val in cases:
+                sub = truth_of(dec, "subtract_radius")
+                ex = ast.parse(U(val), mode="eval").body
+                # resolve droplet temporaries
+                txt = U(ex)
+                seen.add((sub, txt))
+            # expected texts
+            base_call = None
+            conv = Converter(opaque_calls=True)
             try:
-                e = Converter().conv(fv.expand(sub[0].value, sub[0]))
-                oks = e == Expr.atom("self[i].radius") + Expr.atom("self[j].radius") and g == [("subtract_radius", True)]
-            except NotAlgebraic:
-                oks = False
-        ctx.decide(bool(okp and oks), "SURFACE", site, (fi, sub[0]) if sub else fi,
+                forms = {}
+                for sub, txt in seen:
+                    forms.setdefault(sub, set()).add(conv.conv(ast.parse(txt, mode="eval").body).show())
+                Pi, Pj = f"self[{iv}]", f"self[{jv}]"
+                fn = fname or "get_distance"
+                d_atoms = [f"{fn}({Pi}.position, {Pj}.position)", f"{fn}({Pj}.position, {Pi}.position)"]
+                want_plain = {Expr.atom(a).show() for a in d_atoms}
+                want_sub = {(Expr.atom(a) - Expr.atom(f"{Pi}.radius") - Expr.atom(f"{Pj}.radius")).show() for a in d_atoms}
+                plain = forms.get(False, set()) | (forms.get(None, set()) if True not in forms and False not in forms else set())
+                okp = bool(forms.get(False)) and forms[False] <= want_plain
+                oks = bool(forms.get(True)) and forms[True] <= want_sub
+            except (NotAlgebraic, SyntaxError):
+                okp = oks = False
+        ctx.decide(bool(okp and oks), "SURFACE", site, (fi, s0),
                    "entry = metric distance of the two centres, minus both radii exactly when subtract_radius is set",
                    "the matrix entry is not distance(self[i].position, self[j].position) − (r_i + r_j) [only with subtract_radius]: surface distances are wrong")
 
@@ -210,14 +263,25 @@ def check_neighbor(ctx):
     fv = view(m, fi)
     site = fi.qualname
     q = [c for c in fv.calls() if isinstance(c.func, ast.Attribute) and c.func.attr == "query"]
-    okq = len(q) == 1 and len(q[0].args) == 2 and U(q[0].args[1]) == "2" and U(q[0].args[0]) == "positions"
-    rets = [n.stmt for n in fv.return_nodes()]
-    oksel = any(U(r.value) == "dist[:, 1]" for r in rets) and any(U(r.value) == "dist[:, 1] - self.data['radius'][index].sum(axis=1)" for r in rets)
-    pos = any(isinstance(s, ast.Assign) and U(s.targets[0]) == "positions" and U(s.value) == "self.data['position']" for s in fv.statements())
-    ctx.decide(okq and oksel and pos, "NEIGHBOR", site, (fi, q[0]) if q else fi,
+    okq = False
+    if len(q) == 1:
+        k = arg_or_kw(q[0], 1, "k")
+        okq = k is not None and U(k) == "2" and U(fv.expand(q[0].args[0], q[0])) == "self.data['position']"
+    st = stmt_index(fv).statement(q[0]) if q else None
+    dn = xn = None
+    if isinstance(st, ast.Assign) and isinstance(st.targets[0], ast.Tuple) and len(st.targets[0].elts) == 2:
+        dn, xn = (U(e) for e in st.targets[0].elts)
+    got = set()
+    for n in fv.return_nodes():
+        for dec, val in value_cases(fv, n.stmt, n.stmt.value, stop=(dn or "", xn or "")):
+            got.add((truth_of(dec, "subtract_radius"), U(val)))
+    want_plain = f"{dn}[:, 1]"
+    want_sub = f"{dn}[:, 1] - self.data['radius'][{xn}].sum(axis=1)"
+    oksel = (False, want_plain) in got and (True, want_sub) in got and not any(v in (want_plain, want_sub) and ((s is True and v == want_plain) or (s is False and v == want_sub)) for s, v in got)
+    ctx.decide(okq and oksel, "NEIGHBOR", site, (fi, q[0]) if q else fi,
                "two nearest hits per droplet (itself and its nearest neighbour); column 1 is returned, minus both radii on request",
-               "nearest-neighbour distances are not taken from the second hit of a 2-nearest query on the droplet positions (minus the radii of both droplets)")
-    small = [(U(r.value)) for r in rets]
+               "nearest-neighbour distances are not taken from the second hit of a 2-nearest query on the droplet positions (minus the radii of both droplets exactly when requested)")
+    small = {v for s_, v in got}
     ctx.decide("np.zeros((0,))" in small and "np.full(1, np.nan)" in small, "NEIGHBOR", site + ":small", fi, "0 droplets → empty, 1 droplet → NaN",
                "emulsions with fewer than two droplets are not answered with an empty array / NaN")
 
@@ -227,21 +291,42 @@ def check_from_random(ctx):
     fi = m.func(f"{EM}.Emulsion.from_random")
     fv = view(m, fi)
     site = fi.qualname
-    inner = [g for g in m.all_functions() if g.parent is fi and g.name == "get_position"]
-    ok_pos = len(inner) == 2
+    inner = [g for g in m.all_functions() if g.parent is fi]
     seen = set()
     for g in inner:
         rets = [s for s in ast.walk(g.node) if isinstance(s, ast.Return)]
         seen.add(U(rets[0].value) if rets else "")
-    ok_pos = ok_pos and seen == {"grid_or_bounds.get_random_point(rng=rng)", "rng.uniform(bnds[:, 0], bnds[:, 1])"}
+    bn = [s for s in fv.statements() if isinstance(s, ast.Assign) and U(s.value).startswith("np.atleast_2d(")]
+    b = U(bn[0].targets[0]) if bn else "bnds"
+    ok_pos = len(inner) == 2 and len({g.name for g in inner}) == 1 and seen == {"grid_or_bounds.get_random_point(rng=rng)", f"rng.uniform({b}[:, 0], {b}[:, 1])"}
     ctx.decide(ok_pos, "RANDOM", site + ":position", fi, "positions: grid.get_random_point(rng) or uniform(lower bounds, upper bounds)",
                f"random positions are drawn as {sorted(seen)}; they must be uniform between the lower (column 0) and upper (column 1) bounds / grid.get_random_point")
-    drops = [s for s in fv.statements() if isinstance(s, ast.Assign) and U(s.targets[0]) == "drops"]
-    okr = len(drops) == 1 and "droplet_class(get_position(), rng.uniform(r0, r1))" in U(drops[0].value) and "range(num)" in U(drops[0].value)
-    unpack = any(isinstance(s, ast.Assign) and U(s.targets[0]) == "(r0, r1)" and U(s.value) == "radius" for s in ast.walk(fi.node)) and \
-        any(isinstance(s, ast.Assign) and len(s.targets) == 2 and {U(t) for t in s.targets} == {"r0", "r1"} and U(s.value) == "float(radius)" for s in ast.walk(fi.node))
-    ctx.decide(okr and unpack, "RANDOM", site + ":radius", (fi, drops[0]) if drops else fi, "radii uniform in [r0, r1] (r0 = r1 for a single number)",
-               "random radii are not drawn uniformly from the requested range (r0, r1)")
+    # every droplet: droplet_class(<position>, rng.uniform(r0, r1)) with (r0, r1) = radius or r0 = r1 = float(radius)
+    cons = [c for c in fv.calls(nested=True) if U(c.func) == "droplet_class" and len(c.args) == 2]
+    okr = False
+    if len(cons) == 1 and inner:
+        c = cons[0]
+        pos = fv.expand(c.args[0], c) if fv.node_of(c) is not None else c.args[0]
+        rad = c.args[1]
+        okr = U(pos) == f"{inner[0].name}()" and isinstance(rad, ast.Call) and U(rad.func) == "rng.uniform" and len(rad.args) == 2
+        if okr:
+            lo, hi = (U(a) for a in rad.args)
+            defs = {}
+            for s in ast.walk(fi.node):
+                if isinstance(s, ast.Assign) and isinstance(s.targets[0], ast.Name) and s.targets[0].id in (lo, hi):
+                    defs.setdefault(s.targets[0].id, set()).add(U(s.value))
+                elif isinstance(s, ast.Assign) and isinstance(s.targets[0], ast.Tuple):
+                    for k_, e in enumerate(s.targets[0].elts):
+                        if isinstance(e, ast.Name) and e.id in (lo, hi):
+                            defs.setdefault(e.id, set()).add(f"{U(s.value)}[{k_}]")
+            okr = defs.get(lo) == {"radius[0]", "float(radius)"} and defs.get(hi) == {"radius[1]", "float(radius)"}
+        # number of droplets
+        lpq = stmt_index(fv).enclosing(c, (ast.For,))
+        gen = [n for n in ast.walk(fi.node) if isinstance(n, (ast.ListComp, ast.GeneratorExp)) and any(z is c for z in ast.walk(n))]
+        cnt = U(lpq[0].iter) if lpq else (U(gen[0].generators[0].iter) if gen else "")
+        okr = okr and cnt == "range(num)"
+    ctx.decide(okr, "RANDOM", site + ":radius", (fi, cons[0]) if cons else fi, "num droplets, radii uniform in [r0, r1] (r0 = r1 for a single number)",
+               "random droplets are not `num` × droplet_class(get_position(), rng.uniform(r0, r1)) with (r0, r1) the requested radius range")
 
 
 # ----------------------------------------------------------------------------- removal loops
